@@ -447,7 +447,7 @@ impl GroupConfig {
                 Overreplicated(self.rf_over())
             },
             root_paths: if self.isolate {
-                self.input_paths().collect()
+                self.isolated_roots()
             } else {
                 vec![]
             },
@@ -521,6 +521,26 @@ impl GroupConfig {
                     .map(move |p| base_dir.resolve(p)),
             )
         }
+    }
+
+    /// Returns the input paths in the same canonical form as the paths of the scanned files
+    /// (`.`, `..` and symbolic links to directories resolved), so that they can be matched
+    /// as prefixes of the scanned files.
+    pub fn isolated_roots(&self) -> Vec<Path> {
+        self.input_paths()
+            .map(|p| {
+                if p.to_path_buf().is_file() {
+                    match (p.parent(), p.file_name()) {
+                        (Some(parent), Some(name)) => {
+                            Arc::new(parent.canonicalize()).join(Path::from(name))
+                        }
+                        _ => p,
+                    }
+                } else {
+                    p.canonicalize()
+                }
+            })
+            .collect()
     }
 
     fn build_transform(&self, command: &str) -> io::Result<Transform> {
